@@ -128,12 +128,14 @@ type c04Space struct {
 func runC04(c *explore.Ctx) {
 	var spaces []c04Space
 	if c.Thorough() {
-		spaces = []c04Space{{crashSpace{"T", "BIGC", 3}, 3, 1, nil}, {crashSpace{"T3", "BIGC", 3}, 3, 1, nil}, {crashSpace{"S2", "ROLL", 3}, 2, 1, nil}, {crashSpace{"E", "ROLL1", 3}, 2, 1, nil}, {crashSpace{"CH", "ROLL", 2}, 2, 0, nil}, {crashSpace{"S2", "ROLL", 1}, 4, 0, nil}, {crashSpace{"S3", "ROLL", 1}, 3, 0, nil},
+		spaces = []c04Space{{crashSpace{"T", "BIGC", 3}, 3, 1, nil}, {crashSpace{"T3", "BIGC", 3}, 3, 1, nil}, {crashSpace{"S2", "ROLL", 3}, 2, 1, nil}, {crashSpace{"E", "ROLL1", 3}, 2, 1, nil}, {crashSpace{"CH", "ROLL", 2}, 2, 0, nil}, {crashSpace{"S2", "ROLL", 1}, 4, 0, nil}, {crashSpace{"S3", "ROLL", 1}, 3, 0, nil}, {crashSpace{"RU", "ROLL", 2}, 3, 0, nil},
 			{crashSpace{"SM", "ROLLM", 4}, 2, 0, []explore.Op{{Kind: explore.Put, Key: "a"}, {Kind: explore.Delete, Key: "a"}, {Kind: explore.Put, Key: "b"}, {Kind: explore.Compact}}}}
 	} else {
 		spaces = []c04Space{{crashSpace{"T", "BIGC", 2}, 2, 0, nil}, {crashSpace{"T3", "BIGC", 2}, 2, 0, nil}, {crashSpace{"S2", "ROLL", 2}, 2, 0, nil}, {crashSpace{"E", "ROLL1", 2}, 1, 0, nil},
 			// few first-epoch images, longer second epochs: a recovered session, a clean restart, more writes, then the crash
 			{crashSpace{"S2", "ROLL", 1}, 3, 0, nil},
+			// segment ids reused out of sequence order: what recovery rebuilds per segment must land on the right segment
+			{crashSpace{"RU", "ROLL", 1}, 2, 0, nil},
 			// a sealed segment below the compaction minimum holds an old put of a: histories that put and delete a
 			// again, crash, recover (segment metadata rebuilt by the replay) and then compact
 			{crashSpace{"SM", "ROLLM", 3}, 1, 0, []explore.Op{{Kind: explore.Put, Key: "a"}, {Kind: explore.Delete, Key: "a"}, {Kind: explore.Put, Key: "b"}, {Kind: explore.Compact}}}}
@@ -142,7 +144,7 @@ func runC04(c *explore.Ctx) {
 		if c.Expired() || c.NViolations() > 0 {
 			return
 		}
-		base, err := explore.GetBase(sp.Base, cfgByName(sp.Cfg), 0)
+		base, err := baseVariant(sp.Base, cfgByName(sp.Cfg))
 		if err != nil {
 			c.HarnessError("%v", err)
 		}
@@ -334,7 +336,7 @@ func init() {
 }
 
 func replayChain(rep map[string]interface{}) (string, error) {
-	base, err := explore.GetBase(fmt.Sprint(rep["base"]), cfgByName(fmt.Sprint(rep["cfg"])), 0)
+	base, err := baseVariant(fmt.Sprint(rep["base"]), cfgByName(fmt.Sprint(rep["cfg"])))
 	if err != nil {
 		return "", err
 	}
